@@ -244,25 +244,36 @@ func Execute(p *Plan, scratch string) (res *Result) {
 	return
 }
 
+// normGraph reduces a wait-for graph to its shape: the multiset of
+// "waits for <lock kind> holding <lock kinds>" without task ids or addresses.
 func normGraph(s string) string {
-	// strip pointer values so that the signature names the shape only
-	out := []byte{}
-	skip := false
-	for i := 0; i < len(s); i++ {
-		if s[i] == '@' {
-			skip = true
+	var shapes []string
+	for _, part := range strings.Split(s, ";") {
+		part = strings.TrimSpace(part)
+		i := strings.Index(part, "waits for ")
+		if i < 0 {
 			continue
 		}
-		if skip {
-			if s[i] == ' ' || s[i] == '(' || s[i] == ']' || s[i] == ';' {
-				skip = false
-			} else {
+		out := []byte{}
+		skip := false
+		for _, c := range []byte(part[i:]) {
+			if c == '@' {
+				skip = true
 				continue
 			}
+			if skip {
+				if c == ' ' || c == '(' || c == ']' {
+					skip = false
+				} else {
+					continue
+				}
+			}
+			out = append(out, c)
 		}
-		out = append(out, s[i])
+		shapes = append(shapes, string(out))
 	}
-	return string(out)
+	sort.Strings(shapes)
+	return strings.Join(shapes, "; ")
 }
 
 func (r *Run) logf(f string, a ...interface{}) {
